@@ -754,6 +754,10 @@ func (c *SpecCtx) call(x *SExpr) Value {
 			specFail("disjoint needs two slices")
 		}
 		return boolV(mkNot(mkEq(a.Arr, b.Arr)))
+	case "asptr":
+		// asptr(x, T): the integer x (e.g. a trace component) as a *T
+		t := e.w.resolveType(c.pkg, x.Args[1].String())
+		return &Ptr{Kind: "obj", Ref: c.intTerm(c.eval(x.Args[0])), Root: t, Typ: types.NewPointer(t)}
 	case "samearr":
 		a, ok1 := c.eval(x.Args[0]).(*Slice)
 		b, ok2 := c.eval(x.Args[1]).(*Slice)
